@@ -20,9 +20,10 @@ CHECKS = {
         "escaping the control characters or not, the solver shows that the real zitiql.ParseZqlString maps the literal built "
         "by the reference escaper back to exactly s (injectivity is a corollary). Bounded model checking: all paths of the "
         "real function for those lengths are decided by z3; any model is replayed natively. Operand positions (=, !=, in, contains): the literal is arbitrary (<=2/3 bytes) or one "
-        "of 13 longer texts spelling operator words and query syntax; the field value arbitrary: the typed query means the literal's exact string.",
+        "of 13 longer texts spelling operator words and query syntax; the field value arbitrary: the typed query means the literal's exact string; four pairs of escaped "
+        "literals inside one filter (in / or / and forms) each denote their own string.",
         BASE_NOTE + "Outside: longer strings, non-ASCII bytes, the ANTLR lexer's acceptance of the literal (grammar fragment), "
-        "operand positions other than the terminal visit that calls ParseZqlString.",
+        "filters with more than two literals.",
         "6/C11"),
 }
 
@@ -32,7 +33,8 @@ CHECKS["C13"] = (
     "std source), equal encodings imply equal lists (<=2 x <=2 bytes), the uvarint pair round-trips every uint64, and components of "
     "127/128/129/4095/4096/4097 bytes (symbolic fill byte) round-trip or are rejected.",
     BASE_NOTE + "Typed scalars (string, optional string, int64, int32 widening, float64 bit patterns, bool, time incl. an arbitrary instant, nil), containers (maps / lists, "
-    "nesting, empty containers) and field-checker-restricted writes (every setter kind, null optional values included) are separate harnesses of the same check (see evidence).",
+    "nesting, empty containers), field-checker-restricted writes (every setter kind, null optional values included) and the read-modify-write setters "
+    "(GetAndSetString / GetAndSetStringList) are separate harnesses of the same check (see evidence).",
     "6/C13")
 CHECKS["C14"] = (
     "For every strictly ordered set of <=3 byte strings of <=2 arbitrary bytes (empty string and shared prefixes included) "
@@ -41,7 +43,8 @@ CHECKS["C14"] = (
     "tree-set cursor (any insertion order, both directions, empty set), filtered cursor (symbolic filter bits), union cursor (both directions). "
     "Store level, over 2 emps with symbolic ids (1..2 arbitrary bytes) and symbolic role / link membership, the same script against the cursors the store hands "
     "out: set-index value cursor and key cursor, link-collection cursor, related-entities cursor, IteratorMatchingAllOf / AnyOf, IterateIds, the typed "
-    "string-list cursor, the set symbol's runtime cursor with SeekToString, and one runtime symbol re-opened row after row (no state carried from the previous row).",
+    "string-list cursor, the ref-counted link collection's cursor, the set symbol's runtime cursor with SeekToString, and one runtime symbol re-opened row after row "
+    "(no state carried from the previous row).",
     BASE_NOTE + "bbolt is replaced by the mbolt model (single-leaf buckets), validated against real bbolt v1.4.0 on 36k operation sequences; "
     "every counterexample is replayed on real bbolt. Outside: larger sets, longer elements, buckets spanning several pages.",
     "6/C14")
@@ -52,8 +55,8 @@ CHECKS["C03"] = (
     "Create, then one symbolic operation (create, full update, field-restricted update with a symbolic field checker, delete) with symbolic arguments run "
     "through the real DbImpl.Update / BaseStore code. The solver shows on every path that the operation is accepted iff the reference model accepts it "
     "(duplicate / empty non-nullable value rejected with UniqueIndexDuplicateError, missing entity as not-found), and that afterwards the entity fields and the "
-    "raw unique-index and set-index buckets hold exactly what the successor state implies (no stale, extra or empty keys). One step from every valid state "
-    "covers histories of any length over these bounds. Plus: a child-store entity and a plain one with arbitrary role sets; delete or role rewrite of the child "
+    "raw unique-index and set-index buckets (and ReadIndex.Read / SetReadIndex.Read / ReadKeys) hold exactly what the successor state implies (no stale, extra or empty keys). One step from every valid state "
+    "covers histories of any length over these bounds (thorough additionally runs a second operation from the state the first one left). Plus: a child-store entity and a plain one with arbitrary role sets; delete or role rewrite of the child "
     "entity through either store leaves the parent's indexes exact; and transactions of 2 (quick) / 3 (thorough) operations (create / update / delete with "
     "symbolic slots and names: value reuse after delete and swaps inside one transaction), accepted iff the model accepts each in turn, rolled back as a whole otherwise.",
     BASE_NOTE + "bbolt = mbolt model (validated against bbolt; rollback on error holds by construction and is assumed of bbolt). The three index kinds are "
@@ -63,7 +66,7 @@ CHECKS["C12"] = (
     "Programs are enumerated (all boolean skeletons over distinct bool symbols and the literals true/false with <=3 (quick) / <=4 (thorough) connectives and/or/not, "
     "printed with minimal and full parentheses, upper/mixed case, extra whitespace, redundant parentheses; nested negation included; plus every case/whitespace spelling of in, between, "
     "contains, icontains and their not-forms, datetime literals with t/z case and blank/tab/newline padding inside the parentheses, and string literals that "
-    "spell operator words) and parsed by the real lexer/parser natively; the recorded parse-tree walk is replayed against the real "
+    "spell operator words; not (P) and not (not (P)) over 15 comparison atoms on int / float / datetime / string fields, null included) and parsed by the real lexer/parser natively; the recorded parse-tree walk is replayed against the real "
     "ToBoltListener, typer and evaluator inside the executor. Per program the solver decides equality with the formula the text was printed from for every "
     "truth assignment / field value.",
     BASE_NOTE + "The program dimension is enumerated, not symbolic (ANTLR's ATN interpreter is not encodable). `not (P)` directly left of a connective is "
@@ -76,7 +79,8 @@ CHECKS["C02"] = (
     "parsed by the real parser) and symbolic paging (skip absent or any int64; limit absent, none, or any int64), the solver shows that the real "
     "QueryIdsC -> uniqueIndexScanner / sortingScanner (row comparators, llrb from source, setPaging) returns count = number of matching rows, page length = "
     "min(limit, matches - max(skip,0)) and the rows of rank skip, skip+1, ... under the reference order (nulls first ascending, id tie-break); cursor-style "
-    "iteration (IterateIds) returns the same page for unsorted queries.",
+    "iteration (IterateIds) returns the same page for unsorted queries; QueryWithCursorC over a caller-supplied cursor (an arbitrary subset of the rows) pages and "
+    "sorts over exactly that subset.",
     BASE_NOTE + "Rows are stored through the real Create into the mbolt model. The five-field specification with arbitrary keys runs over two rows (quick: two of the four "
     "nullable keys symbolic, paging symbolic; thorough: all four symbolic, no paging). Datetime keys are arbitrary instants (year 1..9999, nanoseconds). Outside: more rows, longer strings, NaN sort keys.",
     "6/C02")
@@ -86,7 +90,8 @@ CHECKS["C04"] = (
     "delete referrer; delete target). Asserted on every path: accepted iff the target exists (or nil and nullable); back-reference buckets equal the current "
     "referrers exactly; delete of a referenced target is refused with ReferenceExistsError (restrict) or removes exactly the referrers (cascade). The AnyId "
     "harnesses repeat this with a symbolic target id (1..2/3 bytes over printable ASCII incl. quote and backslash, plus \\f\\n\\r\\t): the filter the delete path builds "
-    "from the id goes through the recorded parse of the template and the real listener, typer, ParseZqlString and evaluator.",
+    "from the id goes through the recorded parse of the template and the real listener, typer, ParseZqlString and evaluator. Back-references are also read through "
+    "GetRelatedEntitiesIdList / IsEntityRelated; thorough (fixed ids) runs either three referrers and one operation or two referrers and a history of two.",
     BASE_NOTE + "Also: a cascading delete inside a transaction that already wrote to the referrers' store (4 adjacent referrers; bbolt then iterates live nodes) and, "
     "for the nullable cascading fk constraint on a self-referencing store, every assignment of 3 emps to nil / themselves / each other (reference cycles included): "
     "exactly the transitive referrers go. A dept referenced with cascading deletes from two stores, deleted, re-created with new referrers and deleted again inside "
@@ -100,7 +105,8 @@ CHECKS["C05"] = (
     "SetLinks (lists with repeats), AddLink / RemoveLink with their changed flag, delete of either entity: both sides agree with the expected matrix, linking to a "
     "missing entity fails. (c) Ref-counted step: symbolic symmetric count (absent or 1..2^30), increment / decrement / SetLinkCount(any n in [0,2^31)) from either "
     "side / delete of either entity / link to a missing entity: both sides equal and positive, or both absent.",
-    BASE_NOTE + "Both sides are read from the raw list buckets. SetLinkCount with a negative count is outside (no documented meaning).",
+    BASE_NOTE + "Also: links given as a field of the entity (PersistContext.SetLinkedIds) on create / update / patch with lists over two existing and one missing target; "
+    "thorough runs a history of two operations in the symmetry harness. Both sides are read from the raw list buckets and through GetLinks / IsLinked / IterateLinks. SetLinkCount with a negative count is outside (no documented meaning).",
     "6/C05")
 CHECKS["C16"] = (
     "Population of 2 slots (absent / ordinary / system, symbolic), then one transaction of 2 (quick) / 3 (thorough) symbolic operations (create / update / delete, "
@@ -128,7 +134,8 @@ CHECKS["C06"] = (
     "and ref-count-linked from emps, and for a parent with an extended child store plus a second child store owning a unique index (delete through any of the three). After the delete the repository's "
     "own integrity checker reports nothing (indexes and links still mirror the remaining entities). Further: an emp and a dept with the SAME id referencing / linking "
     "each other (the emp's delete leaves the dept and no back-reference), and a cascading delete of a dept with 4 adjacent referrers inside a transaction that "
-    "already wrote to their store (no dangling reference value remains).",
+    "already wrote to their store (no dangling reference value remains); cascades from two referring stores, repeated for one id inside one transaction; DeleteWhere "
+    "removes exactly the matching entities without a trace.",
     BASE_NOTE + "Victim id is a fixed string distinct from every symbolic value. Restricting wirings and cascade are C04's subject.",
     "6/C06")
 CHECKS["C07"] = (
@@ -191,8 +198,9 @@ CHECKS["C01"] = (
     "null or symbolic (strings <=2/3 bytes, full-width int64, all float64 bit patterns, datetimes arbitrary instants of year 1..9999 with nanoseconds, datetime literals also written with a zone offset): real typer + evaluator == spec. "
     "(2)+(3) Through the store on symbolic populations of 2 (quick) / 3 (thorough) entities: anyOf / allOf / count / isEmpty over a direct string set (elements "
     "arbitrary bytes; the index-seek shortcut is compared with the scan semantics), scalars, fk-dotted symbols, the back-reference set, three-level set paths, "
-    "sub-queries, map elements holding a string / int64 / bool / nothing, float64 / bool / datetime (arbitrary instants) / int32-stored fields incl. dotted access: "
-    "QueryIds returns exactly the satisfying ids, once each, with the right count.",
+    "sub-queries, map elements holding a string / int64 / bool / nothing, float64 / bool / datetime (arbitrary instants) / int32-stored fields incl. dotted access, function symbols (NewStringFuncSymbol / "
+    "NewBoolFuncSymbol), a field under an aliased symbol name and under a NotNilStringMapper: QueryIds returns exactly the satisfying ids, once each, with the right "
+    "count, and IterateIds with the same filter yields the same ids.",
     BASE_NOTE + "Programs are enumerated (parsed by the real parser natively, replayed into the real listener). Known finding KF-C01-null-bool-reads-false. "
     "Outside: decimal rendering of a symbolic integer beyond [-10,10] and of a symbolic float (paths cut and listed in the evidence), Unicode case folding, int sets.",
     "6/C01")
